@@ -76,6 +76,129 @@ def _theorem_guard_audit(rng, n):
     return hist, failures
 
 
+RETURN_DEFAULTS = ["```(np.empty(0), np.empty(0))```", "```x```", "```5```", "```None```", "```[1, 2]```", "0", "5", "mnist", "x",
+                   "'a'", "np.empty(0)", "2.5", "True"]
+
+
+def _lengthen_fields(rng, ir):
+    """(ir2, fields): a copy of ir in which a non-empty random subset of its one-line proses (a summary line, parameter
+    prose, the prose of the return entry) is made longer than the wrap width by inserting plain words; None when there
+    is no such prose"""
+    import copy
+    import gen_text as G
+    cand = []
+    doc_lines = (ir.get("doc") or "").split("\n")
+    cand += [("doc", i) for i, l in enumerate(doc_lines) if l.strip()]
+    # (prose that itself announces a default is left alone: words appended to it would become part of the announced value)
+    cand += [("param", k) for k, p in ir["params"].items()
+             if isinstance(p.get("doc"), str) and p["doc"].strip() and "\n" not in p["doc"] and "efault" not in p["doc"]]
+    r = (ir.get("returns") or {}).get("return_type")
+    if r is not None and isinstance(r.get("doc"), str) and r["doc"].strip() and "\n" not in r["doc"] and "efault" not in r["doc"]:
+        cand += [("return", None)] * 2
+    if not cand:
+        return None
+    chosen = sorted(set(rng.sample(cand, rng.randint(1, min(3, len(cand))))), key=str)
+    ir2 = copy.deepcopy(ir)
+    for kind, k in chosen:
+        if kind == "doc":
+            doc_lines[k] = G.lengthen(rng, doc_lines[k], min_len=90)
+            ir2["doc"] = "\n".join(doc_lines)
+        elif kind == "param":
+            ir2["params"][k]["doc"] = G.lengthen(rng, ir["params"][k]["doc"], min_len=90)
+        else:
+            ir2["returns"]["return_type"]["doc"] = G.lengthen(rng, r["doc"], min_len=70)
+    return ir2, chosen
+
+
+def _field(ir, kind, k):
+    if ir is None:
+        return None
+    if kind == "doc":
+        return ir.get("doc")
+    if kind == "param":
+        return ((ir.get("params") or {}).get(k) or {}).get("doc")
+    return (((ir.get("returns") or {}).get("return_type")) or {}).get("doc")
+
+
+def _without_fields(ir, fields):
+    """plain-dict copy of a parsed-back interface with the given prose fields blanked (everything else comparable)"""
+    out = {"doc": ir.get("doc"), "params": [(k, dict(p)) for k, p in (ir.get("params") or {}).items()],
+           "returns": [(k, dict(p)) for k, p in (ir.get("returns") or {}).items()]}
+    for kind, k in fields:
+        if kind == "doc":
+            out["doc"] = None
+        elif kind == "param":
+            for n, p in out["params"]:
+                if n == k:
+                    p.pop("doc", None)
+        else:
+            for n, p in out["returns"]:
+                p.pop("doc", None)
+    return repr(out)
+
+
+def wrap_off_length_holds(case):
+    """with word_wrap and wrap_description off nothing looks at the length of prose: lengthening proses that the round trip
+    preserves must give the same parsed-back interface, with the longer proses preserved verbatim.
+    case: {ir (short), ir_long, fields, opts}.  -> (holds or None when the short point is not eligible, what)"""
+    F = fam_parseast
+    fields = [tuple(f) for f in case["fields"]]
+    _, _, out_s = F.round_trip("argparse", case["ir"], case["opts"])
+    if out_s is None or any(_field(out_s, *f) != _field(case["ir"], *f) for f in fields):
+        return None, "the short point does not preserve these proses"
+    _, what_l, out_l = F.round_trip("argparse", case["ir_long"], case["opts"])
+    if out_l is None:
+        return False, "word-wrap off, prose lengthened: " + what_l
+    for f in fields:
+        if _field(out_l, *f) != _field(case["ir_long"], *f):
+            return False, "word-wrap off: %s prose %r came back as %r (the shorter %r comes back verbatim)" % (
+                f[0] if f[1] is None else "%s %s" % f, _field(case["ir_long"], *f), _field(out_l, *f), _field(case["ir"], *f))
+    if _without_fields(out_l, fields) != _without_fields(out_s, fields):
+        return False, "word-wrap off: lengthening prose changed the rest of the parsed-back interface: %s vs %s" % (
+            _without_fields(out_l, fields), _without_fields(out_s, fields))
+    return True, ""
+
+
+def _wrap_off_length_audit(rng, n):
+    """stratum: argparse points with wrapping off (half of them with a return entry that carries a default), each
+    re-run with some proses lengthened past the wrap width"""
+    from collections import OrderedDict
+    from common import Sym, dumps, loads, run_model
+    import gen_ir
+    import gen_text as G
+    import irwire
+    F = fam_parseast
+    pts = []
+    while len(pts) < n:
+        ir, o, _ = F.gen_point(rng, "argparse")
+        o = dict(o, word_wrap=False, wrap_description=False)
+        if rng.random() < 0.5:
+            r = {"doc": G.clean_prose(rng, terminal=rng.choice([".", ".", "", ","])), "default": rng.choice(RETURN_DEFAULTS)}
+            if rng.random() < 0.85:
+                r["typ"] = gen_ir.typ_of_shape(rng, rng.choice(["scalar", "scalar", "optional", "list"]))
+            ir = dict(ir, returns=OrderedDict((("return_type", r),)))
+        lf = _lengthen_fields(rng, ir)
+        if lf is not None:
+            pts.append({"kind": "argparse", "ir": ir, "ir_long": lf[0], "fields": [list(f) for f in lf[1]], "opts": o})
+    dom = run_model([dumps([Sym("c04_class"), p["opts"]["emit_default_doc"], False, False, irwire.enc_ir(F._od(p[k]))])
+                     for p in pts for k in ("ir", "ir_long")])
+    hist, failures = {"wrap-off-length:points": 0}, []
+    for i, p in enumerate(pts):
+        if any(loads(d) == "out-of-domain" for d in dom[2 * i:2 * i + 2]):
+            hist["wrap-off-length:out-of-domain"] = hist.get("wrap-off-length:out-of-domain", 0) + 1
+            continue
+        ok, what = wrap_off_length_holds(p)
+        key = "wrap-off-length:" + ("not-eligible" if ok is None else "holds" if ok else "fails") + \
+              (":return-default" if any(f[0] == "return" for f in p["fields"]) else "")
+        hist[key] = hist.get(key, 0) + 1
+        if ok is None:
+            continue
+        hist["wrap-off-length:points"] += 1
+        if not ok:
+            failures.append({"case": p, "what": what, "class": None})
+    return hist, failures
+
+
 def oracle(rng, tier):
     n = 3000 if tier == "quick" else 40000
     res = fam_parseast.oracle_argparse(rng, n)
@@ -83,10 +206,19 @@ def oracle(rng, tier):
     res["histogram"].update(hist)
     res["failures"] += failures
     res["evaluations"] += hist.get("theorem-guard:points", 0)
+    hist, failures = _wrap_off_length_audit(rng, 500 if tier == "quick" else 6000)
+    res["histogram"].update(hist)
+    res["failures"] += failures
+    res["evaluations"] += hist.get("wrap-off-length:points", 0)
+    res["rule"] += (" | wrapping off: points (half with a return entry that carries a default) re-run with proses lengthened past the "
+                    "wrap width must parse back to the same interface with the longer prose verbatim")
     res["rule"] += (" | audit of the theorem's guard: points inside guard_C04_ast (wrapping off) must be unflagged by finding_class_C04 "
                     "and round-trip on the real code")
     return res
 
 
 def check_case(case):
+    if "ir_long" in case:
+        ok, what = wrap_off_length_holds(case)
+        return (ok is not False), what
     return fam_parseast.check_case_roundtrip(dict(case, kind="argparse"))
